@@ -284,6 +284,17 @@ func c03Impl(c *Ctx, im setImpl) {
 						muts = append(muts, e)
 					}
 				}
+				// the flag returned may be the membership test itself (`return exists`): on a path that knows its value it
+				// is that constant
+				ret := p.Rets[0]
+				if !ret.IsConst("true") && !ret.IsConst("false") {
+					isHas := (ret.Op == "call" && strings.HasSuffix(ret.Sym, "(Set).Has") && ret.Args[0].Key() == s.Key() && ret.Args[1].Key() == v.Key()) ||
+						(ret.Op == "extract" && ret.N == 1 && ret.Args[0].Op == "lookup" && ret.Args[0].Args[0].Key() == s.Key() && ret.Args[0].Args[1].Key() == v.Key())
+					if isHas && member != "" {
+						ret = &Term{Op: "const", Sym: map[bool]string{true: "true", false: "false"}[member == "yes"], Typ: ret.Typ}
+					}
+				}
+				p = &Path{End: p.End, Rets: []*Term{ret}, Conds: p.Conds, Events: p.Events}
 				changes := (rw.add && member == "no") || (!rw.add && member == "yes")
 				switch {
 				case member == "":
